@@ -1,15 +1,19 @@
 """C07 — Analysis-time filters mean the same as record-time filters.
 Lean: Uft/Model/Fstack.lean (look-ahead time/caller filter of get_task_ustack, the
-fstack_entry/fstack_exit automaton, the loops of replay/report/graph/dump/script),
-Uft/Lemmas/Fstack*.lean, Uft/Props/C07.lean.
-Tie: C via H3 — synthesized data directories (random call forests, optionally cut open
-at the end) are analysed by the real `uftrace replay|report|graph|dump|dump --chrome|script`
-with random option sets over -F -N -C -D -t -T(depth,time,trace,filter,notrace,trace_on,
-trace_off,hide,caller) -H -r --trace=off --no-libcall --no-merge; the shown call sequence of
-every command is parsed back and compared with the model's and with one another, and with
-an independent reading of the manual for the core options.  H1 -> H3 composition: the
+fstack_entry/fstack_exit automaton, the loops of replay/report/graph/dump/script and
+fstack_skip), Uft/Lemmas/Fstack*.lean, Uft/Props/C07.lean; record side Uft/Model/Mcount.lean.
+Tie: C via H3 — synthesized data directories (hand-made probes, then random call forests,
+optionally cut open at the end) are analysed by the real `uftrace replay | script |
+dump --chrome | report | graph | dump` with random option sets over -F -N -C -D -t
+-T(depth,time,trace,filter,notrace,trace_on,trace_off,hide,caller) -H -r --trace=off
+--no-libcall (PLT symbols) --no-merge; the shown call sequence of every command is parsed
+back and compared with the model's, with one another (the property: the commands agree) and
+with an independent reading of the manual for the core options.  H1 -> H3 composition: the
 same forest is (a) recorded by the real libmcount with the option and (b) recorded
-unfiltered, written as a data directory and replayed with the option."""
+unfiltered, written as a data directory and replayed with the option; both are also
+compared with their Lean models.
+Findings: F-C07-NOLIBCALL (fixed in /repo; a tree that behaves like the pre-fix model is
+reported again), S4 (-t boundary `>` vs `>=`; reported as KNOWN-FINDING while listed open)."""
 import json
 import os
 import re
@@ -24,7 +28,6 @@ FN = [mcgen.fname(i) for i in range(NFN)]
 FIDX = {n: i for i, n in enumerate(FN)}
 SYMS = [(0x100 * i, 0x40, FN[i]) for i in range(NFN)]
 SCRIPT = os.path.join(C.VERIF, "harness", "c07_log.py")
-KILL = ["timeout", "-s", "KILL", "30"]
 
 
 def addr(fn):
@@ -158,7 +161,7 @@ def trig_table(o):
     return trig
 
 
-def model_cfg(o, pltfixed=0):
+def model_cfg(o, pltfixed=1):
     trig = trig_table(o)
     optin = any("filter=in" in v for v in trig.values())
     lines = ["RESET", "CFG depth=%d threshold=%d optin=%d locin=0 caller=%d enabled=%d rstart=%d rstop=%d nolibcall=%d nomerge=%d pltfixed=%d" % (
@@ -515,11 +518,11 @@ def model_queries(case):
     for c in cmds:
         lines.append("RUN %s %s" % (c, tk))
     if o.no_libcall and o.plt:
-        # the two loops that finding F-C07-NOLIBCALL is about, as they are after its repair
-        lines += model_cfg(o, pltfixed=1)
+        # the two loops that finding F-C07-NOLIBCALL was about, as they were before its repair
+        lines += model_cfg(o, pltfixed=0)
         lines.append("RUN replay %s" % tk)
         lines.append("RUN script %s" % tk)
-        cmds = cmds + ["_cfg"] * (len(model_cfg(o, 1))) + ["replay_fixed", "script_fixed"]
+        cmds = cmds + ["_cfg"] * (len(model_cfg(o, 0))) + ["replay_prefix", "script_prefix"]
     return lines, cmds
 
 
@@ -569,15 +572,15 @@ def assess(case):
     opens = open_at_end(recs, o)
     plt_case = bool(o.no_libcall and o.plt)
     # --- model vs code, command by command.  replay and script have two models when --no-libcall meets PLT
-    # symbols: the code as it is (finding F-C07-NOLIBCALL) and the code after the proposed repair
-    variant = "as-is"
-    if plt_case and (mo["replay_fixed"] != mo["replay"] or mo["script_fixed"] != mo["script"]):
-        if im["replay"][1] == mo["replay"] and im["script"][1] == mo["script"]:
+    # symbols: the code as it is now and the code before the repair of finding F-C07-NOLIBCALL
+    variant = "same"
+    if plt_case and (mo["replay_prefix"] != mo["replay"] or mo["script_prefix"] != mo["script"]):
+        variant = "repaired"
+        if (im["replay"][1], im["script"][1]) != (mo["replay"], mo["script"]) and \
+                (im["replay"][1], im["script"][1]) == (mo["replay_prefix"], mo["script_prefix"]):
             variant = "pre-fix"
-        elif im["replay"][1] == mo["replay_fixed"] and im["script"][1] == mo["script_fixed"]:
-            variant = "repaired"
     case["variant"] = variant
-    mrep, mscr = (mo["replay_fixed"], mo["script_fixed"]) if variant == "repaired" else (mo["replay"], mo["script"])
+    mrep, mscr = (mo["replay_prefix"], mo["script_prefix"]) if variant == "pre-fix" else (mo["replay"], mo["script"])
     if im["replay"][1] != mrep:
         mism.append(("replay", im["replay"][1][:12], mrep[:12]))
     if im["script"][1] != mscr:
@@ -631,8 +634,9 @@ def case_json(case):
 
 
 # ---------------------------------------------------------------- H1 -> H3 ------------
-def rec_opts(rng, durs):
-    """option sets that exist at both times: -F -N -D -t (t never equal to a call duration: S4)"""
+def rec_opts(rng, durs, boundary_ok):
+    """option sets that exist at both times: -F -N -D -t. Unless finding S4 is listed as open, -t is never
+    equal to a call duration (record time keeps `> t`, replay time `>= t`)"""
     o = mcgen.Opts()
     fns = list(range(NFN))
     if rng.random() < 0.5:
@@ -642,7 +646,7 @@ def rec_opts(rng, durs):
     if rng.random() < 0.45:
         o.D = rng.randint(1, 4)
     if rng.random() < 0.5:
-        cand = [t for t in (1, 2, 3, 4, 5, 7, 10, 12, 20, 25, 50) if t not in durs]
+        cand = [t for t in (1, 2, 3, 4, 5, 7, 10, 12, 20, 25, 50) if boundary_ok or t not in durs]
         if cand:
             o.t = rng.choice(cand)
     o.patt = "regex"
@@ -663,7 +667,7 @@ def stream_recs(tokens):
     return out
 
 
-def record_vs_replay(ctx, uft, root, nforest):
+def record_vs_replay(ctx, uft, root, nforest, boundary_ok):
     exe, log = h1.build(ctx, "normal")
     if not exe:
         return None, log
@@ -685,7 +689,9 @@ def record_vs_replay(ctx, uft, root, nforest):
         script = mcgen.script_lines(ops, lambda fn, k, kind=kind: kind)
         cases.append({"opts": mcgen.Opts(), "script": script, "kind": kind, "forest": i, "role": "plain", "durs": durs})
         for _ in range(2):
-            cases.append({"opts": rec_opts(rng, durs), "script": script, "kind": kind, "forest": i, "role": "filtered", "durs": durs})
+            o = rec_opts(rng, durs, boundary_ok)
+            cases.append({"opts": o, "script": script, "kind": kind, "forest": i, "durs": durs,
+                          "role": "boundary" if (o.t in durs) else "filtered"})
         # S4 probe: -t equal to one of the durations
         if durs and i % 4 == 0:
             o = mcgen.Opts()
@@ -707,8 +713,14 @@ def record_vs_replay(ctx, uft, root, nforest):
         return rc, parse_replay(out), err
     with ThreadPoolExecutor(16) as ex:
         rr = list(ex.map(one, enumerate(jobs)))
-    for c, r in zip(jobs, rr):
+    # the Fstack model on the same unfiltered recording
+    mlines = []
+    for c in jobs:
+        mlines += model_cfg(to_ropts(c["opts"])) + ["RUN replay " + " ".join(plain[c["forest"]])]
+    mout = [l for l in C.run_model("C07", mlines) if l.strip() != "ok"]
+    for c, r, m in zip(jobs, rr, mout):
         c["replayed"] = r
+        c["replay_model"] = [] if m.strip() == "-" else m.split()
         c["recorded"] = mcheck.stream(c["impl"])
         c["plain"] = plain[c["forest"]]
     return jobs, ""
@@ -772,7 +784,7 @@ def run(ctx):
                            "trace_off_start", "no_libcall_with_plt", "no_merge", "open_calls_at_end", "records")}
     sel = {"shows_everything": 0, "shows_nothing": 0, "shows_a_proper_part": 0, "folded_leaves": 0,
            "record_removed_by_time_filter": 0, "hidden_parent_shown_child": 0}
-    variants = {"as-is": 0, "pre-fix": 0, "repaired": 0}
+    variants = {"same": 0, "pre-fix": 0, "repaired": 0}
     nolib_hits = []
     samples = []
     for lo in range(0, len(cases), 600):
@@ -799,7 +811,7 @@ def run(ctx):
             rd = {(t[2], t[3]): t[1] for t in case["recs"] if t[0] == "E"}
             sel["hidden_parent_shown_child"] += any(
                 int(t.split(":")[1]) < rd.get((int(t.split(":")[2]), int(t.split(":")[3])), 0) for t in shown if t[0] == "E")
-            variants[case.get("variant", "as-is")] += 1
+            variants[case.get("variant", "same")] += 1
             disagreements += bool(mism)
             monitor_fail += bool(bad)
             if finding:
@@ -814,7 +826,8 @@ def run(ctx):
                     "case": case_json(case), "model_input": model_queries(case)[0][:6],
                     "theorem": "c07_commands_agree / c07_replay_refines_spec (Props/C07.lean); correspondence Fstack",
                 }, no_failing_input=not bad)
-    # ---- finding F-C07-NOLIBCALL: replay/script skip a --no-libcall PLT record before the filters, the others after
+    # ---- finding F-C07-NOLIBCALL (repaired in /repo; reported again if the tree under test behaves like the
+    # pre-fix model): replay/script skipped a --no-libcall PLT record before the filters, the others after
     if nolib_hits:
         kf = [f for f in C.known_findings("C07") if f["id"] == FINDING_NOLIBCALL]
         what = ("--no-libcall: script and replay drop a PLT record before fstack_entry/fstack_exit, report/graph/dump "
@@ -834,35 +847,48 @@ def run(ctx):
                 "theorem": "c07_commands_agree (needs --no-libcall off)"})
     # ---- record time vs replay time
     rvr_n = 40 if ctx.tier == "quick" else 1500
-    jobs, log = record_vs_replay(ctx, uft, root, rvr_n)
-    rvr = {"pairs": 0, "equal": 0, "boundary_probes": 0, "boundary_differs": 0, "filtered_something": 0}
+    s4 = [f for f in C.known_findings("C07") if f["id"] == "S4"]
+    jobs, log = record_vs_replay(ctx, uft, root, rvr_n, boundary_ok=bool(s4))
+    rvr = {"pairs": 0, "equal": 0, "boundary_cases": 0, "boundary_differs": 0, "filtered_something": 0}
     if jobs is None:
         C.violation(ctx, "build-h1", {"kind": "harness-build-failed", "log": log[-3000:]}, True)
     else:
         for ji, c in enumerate(jobs):
             rc, rep, err = c["replayed"]
             evaluations += 1
-            if c["role"] == "boundary":
-                rvr["boundary_probes"] += 1
-                rvr["boundary_differs"] += (rep != c["recorded"])
-                continue
             rvr["pairs"] += 1
             rvr["filtered_something"] += 0 < len(c["recorded"]) < len(c["plain"])
-            if rc == 0 and rep == c["recorded"] and c["impl_cmp"] == c["model_cmp"]:
+            models_ok = c["impl_cmp"] == c["model_cmp"] and rep == c["replay_model"]
+            if c["role"] == "boundary":
+                rvr["boundary_cases"] += 1
+            if rc == 0 and rep == c["recorded"] and models_ok:
                 rvr["equal"] += 1
                 continue
-            monitor_fail += 1
+            if c["role"] == "boundary" and rc == 0 and models_ok:
+                # shape of S4: a call ran exactly the threshold; both sides do what their models say
+                rvr["boundary_differs"] += 1
+                if s4:
+                    C.known(ctx, s4[0], "S4 -t boundary: a call that runs exactly the threshold is dropped by record -t (>) and "
+                                        "kept by replay -t (>=)")
+                    continue
+                if not boundary_ok:
+                    continue        # dedicated probe only; counted in coverage, see assumptions
+            if not models_ok:
+                disagreements += 1
+            else:
+                monitor_fail += 1
             if replays < 5:
                 replays += 1
                 k = next((i for i, (a, b) in enumerate(zip(rep, c["recorded"])) if a != b), min(len(rep), len(c["recorded"])))
                 C.violation(ctx, "rvr%d" % ji, {
-                    "kind": "property-violated-on-implementation",
+                    "kind": "property-violated-on-implementation" if models_ok else "model-code-disagreement",
                     "what": "recording with the option and replaying the unfiltered recording with the option give different call trees",
                     "env": mcgen.to_env(c["opts"]), "hook": c["kind"], "script": c["script"][:300],
                     "replay_args": cli_args(to_ropts(c["opts"])), "rc": rc, "stderr": err[-300:],
                     "first_difference": {"index": k, "recorded": c["recorded"][k:k + 3], "replayed": rep[k:k + 3]},
                     "hook_model_agrees_with_libmcount": c["impl_cmp"] == c["model_cmp"],
-                    "theorem": "c07_record_eq_replay"})
+                    "fstack_model_agrees_with_replay": rep == c["replay_model"],
+                    "theorem": "c07_record_eq_replay / c07_record_eq_replay_partial"}, no_failing_input=not models_ok)
     if proof_broken:
         C.violation(ctx, "proof", {"kind": "proof-obligation-broken", "problems": problems,
                                    "searched": "%d command runs; monitor failures %d" % (evaluations, monitor_fail)},
@@ -887,9 +913,10 @@ def run(ctx):
         "calls or are cut by -r (their 'remaining functions' accounting ignores the filters: C08/C15 territory)",
         "raw `uftrace dump` reads the task files without the look-ahead, so -t / time= / -C do not apply to it (modelled as coded, "
         "theorem c07_dumpraw_agrees has the hypothesis); it is compared with the other commands only without those options",
-        "record-vs-replay: -t values equal to a call's duration are kept out of the comparison (record time keeps '> t', replay "
-        "'>= t': candidate finding S4, theorem c07_time_boundary_witness; not listed in known_findings.json); they are probed "
-        "separately and counted in coverage.record_vs_replay.boundary_differs",
+        "record-vs-replay, -t boundary (finding S4, theorem c07_time_boundary_witness: record time keeps '> t', replay '>= t'): "
+        "while S4 is listed as open in known_findings.json, -t values equal to a call's duration are generated and a difference of "
+        "exactly that shape (both sides match their models) is reported as KNOWN-FINDING; otherwise such values are kept out of the "
+        "random comparison and only probed (coverage.record_vs_replay.boundary_differs)",
     ]
     ctx.notes += [
         "`uftrace graph -D n` synthesizes the trigger '_start@depth=n'; when the symbol table has no _start the filter setup is "
